@@ -111,8 +111,18 @@ class C07(EngineACheck):
 
     def run_one(self, ch: Choices) -> RunOutcome:
         out = RunOutcome()
-        mode = ch.choice(4, "program-kind")  # 0 handle fan-out allowed; 1,2 chains only; 3 generic
-        if mode <= 2:
+        mode = ch.choice(5, "program-kind")  # 0 handle fan-out allowed; 1,2 chains only; 3 generic
+        if mode == 4:
+            # twins with children, reached directly / through delays / through wrappers: whether a
+            # duplicate is collapsed into its running twin or served from the backend depends on
+            # the schedule, the recorded graph must not
+            from checks.c06 import gen_twin_program
+
+            prog = gen_twin_program(ch, p_raise=0.0)
+            out.probe("twin_family_programs")
+            names = LIMIT_NAMES
+            shape = "twins"
+        elif mode <= 2:
             prog = gen_handle_program(ch, avoid_known=(mode >= 1))
             out.probe("handle_programs")
             shape = ("handle-fanout" if prog.fanout_lazy else
